@@ -20,8 +20,19 @@ def gen_history(rnd, cfg):
         interesting += [T, 2 * T]
     if c:
         interesting += [c]
-    mood = rnd.choice(["silent", "chatty", "pongs", "mixed"])
-    while now < horizon and len(steps) < 120:
+    mood = rnd.choice(["silent", "chatty", "pongs", "mixed", "trickle"])
+    if mood == "trickle":
+        # the socket is readable more often than every poll period, but for a long time no read completes a message:
+        # one frame arriving byte by byte, or non-final fragments only
+        dt = rnd.choice([max(1, p // 2), max(1, p // 3), max(1, p - 1)])
+        if rnd.random() < 0.5:
+            pieces = [bytes([b]) for b in bytearray(E(2, bytes(bytearray(range(48)))))]
+        else:
+            pieces = [E(1, b"x", fin=0)] + [E(0, b"y", fin=0) for _ in range(40)] + [E(0, b"z")]
+        for piece in pieces:
+            steps.append(("data", dt, piece))
+            now += dt
+    while mood != "trickle" and now < horizon and len(steps) < 120:
         kind = "timeout"
         x = rnd.random()
         if mood == "chatty" and x < 0.6 or mood == "mixed" and x < 0.3 or mood == "pongs" and x < 0.4:
